@@ -3,19 +3,23 @@ import GomlVerif.Driver.DecSyntax
 import GomlVerif.Driver.C07
 import GomlVerif.Driver.C08
 import GomlVerif.Driver.C09
+import GomlVerif.Driver.GoComp
 /-!
 `gomlmodel c01pipe`: the composite middle-end model `Pipeline.stages` (= `anf ∘ lift ∘ mono`,
 `Model/Pipeline.lean`) run on the REAL Core dump and compared with the REAL Mono, Lift and ANF
 dumps of the same compilation, plus the fragment predicate of `pipeline_preserves`.
 
-Input line: `id<TAB>(prog core)<TAB>(genv (enums …) (structs …))<TAB>(prog mono)<TAB>(prog lift)<TAB>(prog anf)`.
+Input line: `id<TAB>(prog core)<TAB>(genv (enums …) (structs …))<TAB>(prog mono)<TAB>(prog lift)<TAB>(prog anf)`
+`[<TAB>(env …)<TAB>(afile …)<TAB>(gofile …)]` (the last three: `GlobalGoEnv` dump, real annotated ANF, real Go AST; then four
+more output columns `annot=…`, `go=…`, `E2E-IN|E2E-OUT`, reasons, `dce=OK|NO` (`Dce.fileDceOK` of the compiled file),
+`EMIT-IN|EMIT-OUT` (`inEmitFragment`), DCE reasons — the back half, `Pipeline.backStages`).
 Output: `id<TAB>EQ|EQT|DIFF|UNSUPPORTED<TAB>first differing stage + detail<TAB>IN|IN-FROM-MONO|OUT<TAB>reasons<TAB>stats`
 (`IN` = `InPipeFragment`, `IN-FROM-MONO` = only `InLiftAnfFragment`, the fragment of `pipeline_preserves_partial`).
 
 The one number read off the real output is the state of the pipeline-wide `Gensym` when `mono`
 returns (an input of the middle end that the Core dump does not carry): the `env<N>` of the first
 apply function, or — without closures, when `lift` hands out no name — the smallest let-bound
-`t<n>` of the real ANF.
+`t<n>` of the real ANF, or — when `anf` hands out none either — the distance between the `ret<N>` of the first function in the real Go file and in the model's.
 -/
 namespace Goml.Driver.C01pipe
 open Goml Goml.Driver Goml.Pipeline
@@ -31,14 +35,42 @@ def envIndex (x : String) : Option Nat :=
   | 'e' :: 'n' :: 'v' :: ds => if !ds.isEmpty && ds.all Char.isDigit then (String.ofList ds).toNat? else none
   | _ => none
 
-def startGensym (nUser : Nat) (L A : Prog) : Nat :=
+/-- `ret<digits>` / `cond<digits>`: the names `go_file` takes from the shared `Gensym` -/
+def goGensymIndex (x : String) : Option Nat :=
+  let num (ds : List Char) : Option Nat :=
+    if !ds.isEmpty && ds.all Char.isDigit then (String.ofList ds).toNat? else none
+  match x.toList with
+  | 'r' :: 'e' :: 't' :: ds => num ds
+  | 'c' :: 'o' :: 'n' :: 'd' :: ds => num ds
+  | _ => none
+
+/-- the `ret<N>` of a compiled function (first declaration of its body) -/
+def retIndex (f : Go.GFunc) : Option Nat :=
+  f.body.findSome? fun
+    | .varDecl x _ _ => goGensymIndex x
+    | _ => none
+
+/-- how far the real `go_file` numbering is ahead of the model's, read off the first function both
+    files have -/
+def goOffset (model real : Go.GFile) : Nat :=
+  match model.funcs.findSome? (fun f =>
+      match retIndex f, (real.findFunc f.name).bind retIndex with
+      | some a, some b => some (b - a)
+      | _, _ => none) with
+  | some d => d
+  | none => 0
+
+/-- `none`: neither `lift` nor `anf` took a name from the `Gensym` -/
+def startGensym? (nUser : Nat) (L A : Prog) : Option Nat :=
   match ((L.fns.drop nUser).head?.bind (·.params.head?)).bind (fun p => envIndex p.1) with
-  | some n => n
+  | some n => some n
   | none =>
     let ts := A.fns.flatMap (fun f => C09.letTmps f.body)
     match ts with
-    | [] => 0
-    | t :: rest => rest.foldl min t
+    | [] => none
+    | t :: rest => some (rest.foldl min t)
+
+def startGensym (nUser : Nat) (L A : Prog) : Nat := (startGensym? nUser L A).getD 0
 
 /-- drop the function name from `whyRejectedProg`'s answer -/
 def liftReason (P P' : Prog) : String :=
@@ -55,14 +87,97 @@ def reasons (i : PipeIn) : List String :=
       | none => r
     else r
 
+/-! ### printer of the annotated ANF (comparison of `annotFile` with the real annotations) -/
+open Goml.GoCompile (Imm CExpr AExpr AArm ADflt AFn AFile) in
+def showI : Imm → String
+  | .var x t => s!"(var {x} {reprStr t})"
+  | .prim p t => s!"(prim {reprStr p} {reprStr t})"
+  | .tag i t => s!"(tag {i} {reprStr t})"
+
+open Goml.GoCompile (Imm CExpr AExpr AArm ADflt AFn AFile) in
+mutual
+partial def showC : CExpr → String
+  | .imm i => showI i
+  | .constr c args t => s!"(constr {reprStr c} {" ".intercalate (args.map showI)} {reprStr t})"
+  | .tuple is t => s!"(tuple {" ".intercalate (is.map showI)} {reprStr t})"
+  | .array is t => s!"(array {" ".intercalate (is.map showI)} {reprStr t})"
+  | .matchE sc arms d t =>
+    s!"(match {showI sc} ({" ".intercalate (arms.map fun | .mk l b => s!"(arm {showI l} {showA b})")}) {match d with | .none => "none" | .some e => showA e} {reprStr t})"
+  | .ite c t e ty => s!"(if {showI c} {showA t} {showA e} {reprStr ty})"
+  | .while c b ty => s!"(while {showA c} {showA b} {reprStr ty})"
+  | .cget e c i t => s!"(cget {showI e} {reprStr c} {i} {reprStr t})"
+  | .un op e t => s!"(un {reprStr op} {showI e} {reprStr t})"
+  | .bin op l r t => s!"(bin {reprStr op} {showI l} {showI r} {reprStr t})"
+  | .call f args t => s!"(call {showI f} {" ".intercalate (args.map showI)} {reprStr t})"
+  | .toDyn tr ft e t => s!"(todyn {tr} {reprStr ft} {showI e} {reprStr t})"
+  | .dynCall tr m r args t => s!"(dyncall {tr} {m} {showI r} {" ".intercalate (args.map showI)} {reprStr t})"
+  | .go e t => s!"(go {showI e} {reprStr t})"
+  | .proj e i t => s!"(proj {showI e} {i} {reprStr t})"
+partial def showA : AExpr → String
+  | .ret c => showC c
+  | .letE x v b t => s!"(let {x} {showC v} {showA b} {reprStr t})"
+end
+
+def showAFn (f : Goml.GoCompile.AFn) : String := s!"(fn {f.name} {reprStr f.params} {reprStr f.ret} {showA f.body})"
+
+def cmpAFile (model real : Goml.GoCompile.AFile) : String :=
+  if model.length != real.length then s!"DIFF function count {model.length} vs {real.length}" else
+  match (model.zip real).findSome? fun (m, r) =>
+      let sm := showAFn m
+      let sr := showAFn r
+      if sm == sr then none else some s!"DIFF fn {r.name} {C09.firstDiff sm sr}" with
+  | none => "EQ"
+  | some d => C09.clean d
+
+/-- the back half: `annot` (model's re-annotation of its own ANF vs the real annotated ANF), `go`
+    (model's emitted file vs the real `go_file` output), `InE2EFragment` and the reason outside -/
+def backCols (i : PipeIn) (goenvS aanfS goS : String) : String :=
+  match (Sexp.parse goenvS).bind GoComp.decEnv, (Sexp.parse aanfS).bind GoComp.decAFile, (Sexp.parse goS).bind decGFile with
+  | some env, some realA, some realGo =>
+    let e : E2EIn := { pipe := i, goenv := env }
+    match backStages e with
+    | none => "annot=UNSUPPORTED\tgo=UNSUPPORTED\tE2E-OUT\tgo:anf-not-annotatable\tdce=NO\tEMIT-OUT\t"
+    | some b =>
+      let va := cmpAFile b.afile realA
+      let vg :=
+        if !b.ok then "UNSUPPORTED" else
+        match Goml.Driver.Dce.firstDiff b.emitted.items realGo.items with
+        | none => "EQ"
+        | some d =>
+          -- `EQA`: equal once the back-end model is given the REAL annotations (the re-annotation
+          -- differs from `anf.rs` on a closure-typed `let`/`if` node: lift.rs leaves the function type
+          -- on the node and the environment struct type on its body — C09's `EQT` artefact)
+          let viaReal := Goml.Dce.eliminateDeadVars (GoCompile.goFilePreSt env realA b.gensym).1
+          if (Goml.Driver.Dce.firstDiff viaReal.items realGo.items).isNone then "EQA:" ++ C09.clean d
+          else "DIFF:" ++ C09.clean d
+      let inE := inE2EFragment e
+      let rs := if inE then [] else (if inPipeFragment i then [] else ["middle-end"]) ++ goReasons e
+      -- the DCE contract of the compiled file, and the fragment of `core_to_emitted_go_preserves`
+      let dceOk := fragDce b
+      let drs := if dceOk then [] else dceReasons e
+      let emit := if inE && dceOk then "EMIT-IN" else "EMIT-OUT"
+      s!"annot={va}\tgo={vg}\t{if inE then "E2E-IN" else "E2E-OUT"}\t{"; ".intercalate (rs.map C09.clean)}\tdce={if dceOk then "OK" else "NO"}\t{emit}\t{"; ".intercalate (drs.map C09.clean)}"
+  | a, b, c => s!"annot=decode-error env={a.isSome} aanf={b.isSome} go={c.isSome}\tgo=decode-error\tE2E-OUT\t\tdce=NO\tEMIT-OUT\t"
+
 def runLine (l : String) : String :=
   match l.splitOn "\t" with
-  | [id, core, genv, mono, lift, anf] =>
+  | id :: core :: genv :: mono :: lift :: anf :: more =>
     match Sexp.parse core, Sexp.parse genv, Sexp.parse mono, Sexp.parse lift, Sexp.parse anf with
     | some sc, some sg, some sm, some sl, some sa =>
       match decProg sc, decGenv sg, decProg sm, decProg sl, decProg sa with
       | some C, some (es, ss), some M, some L, some A =>
-        let i : PipeIn := { gensym := startGensym M.fns.length L A, enums := es, structs := ss, prog := C }
+        let i0 : PipeIn := { gensym := startGensym M.fns.length L A, enums := es, structs := ss, prog := C }
+        -- neither `lift` nor `anf` took a name: the counter reaches `go_file` unchanged, read it off the real Go file
+        let i : PipeIn :=
+          match startGensym? M.fns.length L A, more with
+          | none, [goenvS, _, goS] =>
+            match (Sexp.parse goenvS).bind GoComp.decEnv, (Sexp.parse goS).bind decGFile with
+            | some env, some realGo =>
+              match backStages { pipe := i0, goenv := env } with
+              | some b => { i0 with gensym := goOffset b.emitted realGo }
+              | none => i0
+            | _, _ => i0
+          | _, _ => i0
         match stages i with
         | none => s!"{id}\tUNSUPPORTED\t{"; ".intercalate (pipeReasons i)}\tOUT\t{"; ".intercalate (pipeReasons i)}\t"
         | some s =>
@@ -79,7 +194,10 @@ def runLine (l : String) : String :=
           let rs := if inF then [] else reasons i
           let stats := s!"gensym={i.gensym} core_fns={C.fns.length} mono_fns={s.mono.fns.length} lift_fns={s.lift.fns.length} instances={s.pairs.length}"
           let tag := if inF then "IN" else if inLiftAnfFragment i then "IN-FROM-MONO" else "OUT"
-          s!"{id}\t{verdict}\t{tag}\t{"; ".intercalate rs}\t{stats}"
+          let back := match more with
+            | [goenvS, aanfS, goS] => "\t" ++ backCols i goenvS aanfS goS
+            | _ => ""
+          s!"{id}\t{verdict}\t{tag}\t{"; ".intercalate rs}\t{stats}{back}"
       | _, _, _, _, _ => s!"{id}\tdecode-error\t\t\t\t"
     | _, _, _, _, _ => s!"{id}\tparse-error\t\t\t\t"
   | _ => "?\tbad-line\t\t\t\t"
